@@ -58,6 +58,13 @@ def specs(tier):
                        ['open', PR2, 'development/10.0'],
                        ['eval_pr', 4], ['eval_pr', 5]],
                  statuses_int=[], statuses_q=['SUCCESSFUL', 'FAILED']),
+            # a stabilization queue: single queue branches fail
+            spec('q-S3-queued', 'S3', None, None, depth=3,
+                 config={'layout': 'S3', 'queue': True, 'skip_queue': False,
+                         'options': BYPASS_REVIEW + ['bypass_build_status']},
+                 init=[['open', PR1, 'stabilization/4.3.18'],
+                       ['eval_pr', 1]],
+                 statuses_int=[], statuses_q=['SUCCESSFUL', 'FAILED']),
             # stacked pull requests: the second one is forked from the tip of
             # the first one's source branch
             spec('skipq-D2-stacked', 'D2', None, None, skip=True, depth=5,
